@@ -32,6 +32,9 @@ func Generate(r *rand.Rand, profile string) *Scenario {
 	if profile == "reclaim2" {
 		return generateReclaim2(r)
 	}
+	if profile == "sat" {
+		return generateSaturation(r)
+	}
 	if profile == "bindfail" || profile == "overhead" || profile == "nested" || profile == "sharers" {
 		return generateTight(r, profile)
 	}
@@ -892,6 +895,96 @@ func generateReclaim2(r *rand.Rand) *Scenario {
 		k++
 		sc.Jobs = append(sc.Jobs, Job{Name: fmt.Sprintf("j%d", k), Queue: rq[i], Prio: 50, Preempt: 1, Min: 1, Age: 600 + 60*i, LastStart: -1})
 		sc.Pods = append(sc.Pods, Pod{Name: fmt.Sprintf("j%d-p1", k), Job: k, Cpu: 500, Mem: 500, Gpu: pick(2, 3, 4, big/2), Phase: "P"})
+	}
+	sc.Normalize()
+	return sc
+}
+
+
+// generateSaturation: full clusters where GPU and CPU are both contended and both carry quotas, over
+// 2-3 level queue trees with unevenly over-allocated siblings, so that reclaim statements are decided
+// by the fair-share saturation comparison between the reclaimer's ancestors and the victims' queues
+// (C07 saturation clause) and not only by the leaf-level strategy checks.
+func generateSaturation(r *rand.Rand) *Scenario {
+	pick := func(vs ...int) int { return vs[r.Intn(len(vs))] }
+	sc := &Scenario{Class: "sat"}
+	sc.Cfg = Cfg{Placement: []string{"binpack", "spread"}[r.Intn(2)], Consolidation: pick(0, 1), Signatures: pick(0, 1),
+		ConsReclaim: pick(0, 0, 1), SatMult: 1000, Cycles: pick(1, 2, 3), Env: "closed", FullHier: 1}
+	nn := pick(1, 2)
+	gpn := pick(2, 4)
+	cpn := pick(8000, 16000)
+	for i := 0; i < nn; i++ {
+		sc.Nodes = append(sc.Nodes, Node{Name: fmt.Sprintf("n%d", i+1), Cpu: cpn, Mem: 64000, Pods: 110, Gpus: gpn, GpuMem: 40000, Ready: 1})
+	}
+	totG, totC := nn*gpn, nn*cpn
+	q := func(name string, parent int) int {
+		gq, cq := pick(0, 1, 1, 2, totG/2, totG)*1000, pick(-1, 0, 2000, 4000, totC/2, totC)
+		sc.Queues = append(sc.Queues, Queue{Name: name, Parent: parent, Prio: pick(100, 100, 200), GQ: gq, GL: -1, GW: pick(1, 1, 2, 3), CQ: cq, CL: -1, MQ: -1, ML: -1})
+		return len(sc.Queues)
+	}
+	var leaves []int
+	nd := pick(2, 2, 3)
+	levels := pick(2, 2, 3)
+	for d := 0; d < nd; d++ {
+		di := q(fmt.Sprintf("d%d", d+1), 0)
+		if levels == 2 {
+			for l := 0; l < pick(1, 2, 2); l++ {
+				leaves = append(leaves, q(fmt.Sprintf("d%dq%d", d+1, l+1), di))
+			}
+			continue
+		}
+		for pj := 0; pj < pick(1, 2); pj++ {
+			pi := q(fmt.Sprintf("d%dp%d", d+1, pj+1), di)
+			for l := 0; l < pick(1, 2); l++ {
+				leaves = append(leaves, q(fmt.Sprintf("d%dp%dq%d", d+1, pj+1, l+1), pi))
+			}
+		}
+	}
+	// a quota of a parent below the sum of its children is legal but not the interesting case: make parents at
+	// least as large as the largest child in half of the scenarios
+	// running jobs fill the nodes, unevenly over the leaves (a favourite leaf takes most)
+	fav := leaves[r.Intn(len(leaves))]
+	k := 0
+	for ni := 0; ni < nn; ni++ {
+		freeG, freeC := gpn, cpn
+		for tries := 0; tries < 12 && (freeG > 0 || freeC >= 2000); tries++ {
+			g, c := 0, 0
+			switch pick(0, 0, 1, 2) {
+			case 0:
+				g, c = pick(1, 1, 2), 500
+			case 1:
+				g, c = 0, pick(2000, 4000)
+			default:
+				g, c = 1, 2000
+			}
+			if g > freeG || c > freeC {
+				continue
+			}
+			leaf := leaves[r.Intn(len(leaves))]
+			if r.Intn(2) == 0 {
+				leaf = fav
+			}
+			k++
+			pre := 1
+			if r.Intn(6) == 0 {
+				pre = 0
+			}
+			sc.Jobs = append(sc.Jobs, Job{Name: fmt.Sprintf("j%d", k), Queue: leaf, Prio: pick(50, 50, 60), Preempt: pre, Min: 1, Age: 7200 + 60*k, LastStart: 36000})
+			sc.Pods = append(sc.Pods, Pod{Name: fmt.Sprintf("j%d-p1", k), Job: k, Cpu: c, Mem: 500, Gpu: g, Phase: "R", Node: ni + 1})
+			freeG -= g
+			freeC -= c
+		}
+	}
+	// pending reclaimers
+	for i := 0; i < pick(1, 2, 3); i++ {
+		k++
+		leaf := leaves[r.Intn(len(leaves))]
+		g, c := pick(1, 1, 2), 500
+		if r.Intn(3) == 0 {
+			g, c = 0, pick(2000, 4000)
+		}
+		sc.Jobs = append(sc.Jobs, Job{Name: fmt.Sprintf("j%d", k), Queue: leaf, Prio: pick(50, 50, 60), Preempt: pick(1, 1, 1, 0), Min: 1, Age: 600 + 60*i, LastStart: -1})
+		sc.Pods = append(sc.Pods, Pod{Name: fmt.Sprintf("j%d-p1", k), Job: k, Cpu: c, Mem: 500, Gpu: g, Phase: "P"})
 	}
 	sc.Normalize()
 	return sc
